@@ -218,7 +218,10 @@ def main():
     def _on_alarm(*_):
         raise Hang()
     signal.signal(signal.SIGALRM, _on_alarm)
-    ctx.watchdog = int(os.environ.get("PF_WATCHDOG", "300" if tier == "quick" else "1200")) * (1 if ctx.escalate == 1 else 3)
+    # a call of the implementation that sends no heartbeat for this long is a termination failure; the longest legitimate
+    # gap in the quick tier is a few seconds (one interpreted kernel call on <= 50 000 cells), so 120 s (240 s escalated) is
+    # generous - with 300 s x 3 a change that made one call hang cost 15 minutes before it was reported (seed C06-19)
+    ctx.watchdog = int(os.environ.get("PF_WATCHDOG", "120" if tier == "quick" else "1200")) * (1 if ctx.escalate == 1 else 2)
     ctx.beat()
     try:
         mod = importlib.import_module(f"props.{prop.lower()}")
